@@ -14,6 +14,7 @@ LSYMS = {
     "NA": ("named", "A"), "NB": ("named", "B"), "NC": ("named", "C"),
     "NLAB": ("named_list", ["A", "B"]), "NLB": ("named_list", ["B"]),
     "NU": ("named", "U"),                       # layer that was never defined
+    "NLAU": ("named_list", ["A", "U"]),         # a batch with one defined and one never-defined layer
     "NLCG": ("named_list", ["C", "G"]),         # two regex layers, one of which matches no module
     "NG": ("named", "G"),
     "SH": ("should",), "SO": ("should_only",), "SN": ("should_not",),
@@ -107,7 +108,8 @@ def run_layer_histories(ctx):
         hists.append(tuple(h))
     chains = [["BO", "LT", "NA", "SH", "AC", "NB"], ["BO", "LT", "NA", "SN", "BAX", "NLAB"], ["BO", "LT", "NC", "SO", "AC", "NLB"],
               ["BO", "LT", "NA", "SN", "AA"], ["BO", "LT", "NB", "SN", "BAA"], ["BO", "LT", "NA", "SO", "ACX", "NC"],
-              ["BO", "LT", "NA", "SH", "AC", "NLCG"], ["BO", "LT", "NG", "SN", "AC", "NB"]]
+              ["BO", "LT", "NA", "SH", "AC", "NLCG"], ["BO", "LT", "NG", "SN", "AC", "NB"],
+              ["BO", "LT", "NB", "SN", "AC", "NLAU"], ["BO", "LT", "NB", "SH", "BAX", "NLAU"]]
     for ch in chains:
         hists.append(tuple(ch))
         n = len(ch)
